@@ -87,4 +87,37 @@ PROPS.update({
         explanation='parse and first-match lookup proved; metadata-only decoding bounded'),
 })
 
+def _bounded(prop, level, claim, bound_note, script='codec2.py', timeouts=None):
+    PROPS[prop] = dict(level=level, bounded=script, bounded_timeout=timeouts or {'quick': 900, 'thorough': 7000},
+                       trusted_base=[L['L1']],
+                       assumptions=['oracle: bounded/refcodec.py (independent FM-94 reference codec and expected hierarchical view; agrees with '
+                                    'the real code on the whole sample corpus); not verified itself'],
+                       claim=claim, note='Bounded stand-in only so far. ' + bound_note, technique=BOUNDED_ONLY,
+                       explanation=claim)
+
+
+_bounded('C04', 'exploration',
+         'Bounded: all data-section residues mod 32 x editions 2-4 x section 2 variants: framing (lengths, even-octet rule, zero padding, '
+         'signatures) against an independently framed message; declared lengths honoured (zero fill / refusal); decoder: surplus octets, '
+         'trailing bytes, sections declared shorter than their content.', 'Grid is exhaustive over residues, bounded over surplus (<= 3 octets).')
+_bounded('C06', 'exploration',
+         'Bounded: uncompressed multi-subset messages with subset-dependent replication counts and bitmaps: each subset alone == together == '
+         'any order, for values, labels, links, hierarchical structure; templates ending inside open operator constructs included.', '')
+_bounded('C07', 'exploration',
+         'Bounded: links, marker labels / widths / references and the attribute placement in the hierarchical view against the reference '
+         '(k-th value -> k-th zero bit), all bit patterns of bitmaps up to 4 (6) bits for 222/223/224/225/232, random chains with 236/237/235.', '')
+_bounded('C08', 'exploration',
+         'Bounded: compiled vs direct for decoder and encoder, cache sizes {0,1,2,50} with shuffled order and colliding top-level descriptor '
+         'lists, re-loaded compiled templates; values, labels, links, bytes or error class.', 'The compiler-correctness theorem itself is not provable function by function (DESIGN C08).')
+_bounded('C09', 'exploration',
+         'Bounded: three conversions back to flat JSON and re-encoding to identical bytes, conservation of flat indices in the hierarchical '
+         'view, expected view, on generated shapes and the corpus.', 'Text conversions use ast.literal_eval and column arithmetic: outside the verifier.')
+_bounded('C10', 'exploration',
+         'Bounded: subset() on generated and corpus messages x index collections (order, repeats, sparse, out of range by one): selected '
+         'subsets in increasing order, distinct count, metadata unchanged, source unchanged, refusal.', '')
+_bounded('C12', 'fault_enumeration',
+         'Fault enumeration: every truncation point of generated / sample messages fails with the library error; streams of 2-3 messages '
+         'with every kind of damage of the statement in random subsets of messages: skipped with continue_on_error, others delivered '
+         'unchanged; strict mode delivers the earlier ones then raises PyBufrKitError; CLI prints no traceback.', '')
+
 NOT_APPLICABLE = {}
